@@ -11,6 +11,9 @@ EXPLANATION = ("C02: the decoder's structure is compared with the frozen v3 tabl
 NOT_DECIDED = "equality with an independent decoder on all documents (value-level)."
 
 RULES = {
+    "C02.R11": lambda ctx: __import__("rules.decoderrules", fromlist=["x"]).hermes_regular_part(ctx, "C02.R11"),
+    # the data-URL entry point: preamble and alphabet of the reader
+    "C02.R10": lambda ctx: __import__("rules.detrules", fromlist=["x"]).data_url_pairing(ctx, "C02.R10"),
     "C02.R8v": lambda ctx: __import__("rules.vlqrules", fromlist=["x"]).reader_shape(ctx, "C02.R8v"),
     "C02.RL": lambda ctx: __import__("rules.common", fromlist=["x"]).loop_exit_rule(ctx, "C02.RL", {'decoder::decode_regular': 0, 'decoder::decode_index': 0, 'decoder::decode_rmi': 0}),
     "C02.R1": lambda ctx: decoderrules.accumulators(ctx, "C02.R1"),
